@@ -21,7 +21,7 @@ import sys
 sys.path.insert(0, os.path.dirname(os.path.dirname(os.path.abspath(__file__))))
 import tour  # noqa: E402
 
-ALL_OPS = {"Attach", "Walk", "Stat", "Clunk", "Open", "Create", "Remove", "Rename", "Truncate", "Chmod", "Mtime", "Write"}
+ALL_OPS = {"Attach", "Walk", "Stat", "Clunk", "Open", "Create", "Remove", "Rename", "Truncate", "Chmod", "Mtime", "Write", "Wstat"}
 PROPS = ["WalkAtomic", "WalkPrefix", "QidIdentity", "StatAgrees", "MutationsMirror",
          "FailedCreateRemoveChangesNothing", "ErrnoCarried", "FidFollowsCreateRename", "Confined", "DotDotAtRoot"]
 INVS = ["TypeOK", "ConfinedState"]
